@@ -422,6 +422,20 @@ func treeMonitor(r *run, st *scheduler.VerifState) {
 				return
 			}
 			delete(want, p)
+			// Probe (off by default, TREE_STALE_PRIORITY=1): the documented meaning of
+			// firstQueuedOperationPriority for an invocation without directly queued operations is the
+			// priority of the operation its first queued child would hand out next.
+			if os.Getenv("TREE_STALE_PRIORITY") != "" && len(vi.Keys) > 0 && len(vi.QueuedOperations) == 0 && len(vi.QueuedChildren) > 0 {
+				first := pathStr(w, vi.QueuedChildren[0])
+				for i := range vi.Children {
+					if pathStr(w, vi.Children[i].Keys) == first && vi.Children[i].FirstQueuedOperationPriority != vi.FirstQueuedOperationPriority {
+						r.failf("violation", "C04", "firstQueuedOperationPriority is the priority of the operation expected to be executed next",
+							"size class queue %s, invocation %s: firstQueuedOperationPriority is %d, but its first queued child %s has %d (increment/decrementExecutingWorkersCount reorder queuedChildren without refreshing the cached priority of the ancestors)",
+							id, p, vi.FirstQueuedOperationPriority, first, vi.Children[i].FirstQueuedOperationPriority)
+						return
+					}
+				}
+			}
 			for i := range vi.Children {
 				walk(&vi.Children[i])
 			}
